@@ -122,7 +122,9 @@ Record pspec := P { p_name : str; p_kind : N; p_before : list str; p_after : lis
 Definition mk_cb (i : N) (p : pspec) : cb :=
   Cb i (p_name p) (p_kind p) (p_before p) (p_after p) (p_cmds p).
 
-Record st := St { s_cbs : list cb; s_next : N }.
+(* s_dead: the instances whose die() has been called, in call order (an instance that is torn
+   down -- db handles closed, scheduled events removed -- does not work any more) *)
+Record st := St { s_cbs : list cb; s_next : N; s_dead : list N }.
 
 Definition oracle := list cb -> list cb.
 Inductive op :=
@@ -166,7 +168,7 @@ Definition load_plugin_class (s : st) (p : pspec) (initf : bool) (o : oracle) : 
   else
     let c := mk_cb (s_next s) p in
     let '(cbs', r) := add_callback o (s_cbs s) c in
-    (St cbs' (N.succ (s_next s)), r).
+    (St cbs' (N.succ (s_next s)) (s_dead s), r).
 
 Definition is_owner (n : str) : bool := seq_eqb (lower n) (lower gen.T20.OWNER_NAME).
 
@@ -182,6 +184,8 @@ Definition owner_load (s : st) (n : str) (imp : N) (initf : bool) (o : oracle) :
       end
   end.
 
+(* `die` is in IrcCallback.__firewalled__ and (since the MetaFirewall fix) wrapped for every plugin
+   class: an exception raised by die() is logged and swallowed; [dief] has no effect on the flow *)
 Definition owner_unload (s : st) (n : str) (dief : bool) : st * res N :=
   if is_owner n then (s, Ok 1)
   else
@@ -189,10 +193,9 @@ Definition owner_unload (s : st) (n : str) (dief : bool) : st * res N :=
     | None => (s, Ok 1)
     | Some old =>
         let '(bad, good) := remove_callback (s_cbs s) (cname old) in
-        let s' := St good (s_next s) in
         match bad with
-        | [] => (s', Ok 1)
-        | _ => if dief then (s', Raise OtherError) else (s', Ok 0)
+        | [] => (St good (s_next s) (s_dead s), Ok 1)
+        | _ => (St good (s_next s) (s_dead s ++ ids bad), Ok 0)      (* for callback in callbacks: callback.die() *)
         end
     end.
 
@@ -210,21 +213,21 @@ Definition owner_reload (s : st) (n : str) (imp : N) (initf dief : bool) (o : or
   if is_owner n then (s, Ok 1)
   else
     let '(bad, good) := remove_callback (s_cbs s) n in
-    let s' := St good (s_next s) in
     match bad with
-    | [] => (s', Ok 1)
+    | [] => (St good (s_next s) (s_dead s), Ok 1)
     | _ =>
         (* module = sys.modules.get(callbacks[0].__module__): no KeyError (fix C20.F24) *)
         match load_plugin_module n imp with
         | OtherExc =>                                  (* except Exception: put `bad` back, re-raise (fix C20.F21) *)
-            let '(cbs', r) := readd o good bad in (St cbs' (s_next s), do _ <- r; Raise OtherError)
+            let '(cbs', r) := readd o good bad in (St cbs' (s_next s) (s_dead s), do _ <- r; Raise OtherError)
         | ImpErr =>
-            let '(cbs', r) := readd o good bad in (St cbs' (s_next s), do _ <- r; Ok 1)
+            let '(cbs', r) := readd o good bad in (St cbs' (s_next s) (s_dead s), do _ <- r; Ok 1)
         | Mod p =>
-            (* else: clause -- die() of the old instances, then the new Class(irc): a failure here
+            (* else: clause -- ONLY now die() of the old instances (they were not touched while the
+               import could still fail), then the new Class(irc): a failure of the constructor
                still loses the plugin (left as known finding C20.F21) *)
-            if dief then (s', Raise OtherError)
-            else let '(s'', r) := load_plugin_class s' p initf o in (s'', do _ <- r; Ok 0)
+            let '(s'', r) := load_plugin_class (St good (s_next s) (s_dead s ++ ids bad)) p initf o in
+            (s'', do _ <- r; Ok 0)
         end
     end.
 
@@ -232,8 +235,8 @@ Definition step (s : st) (x : op) : st * res N :=
   match x with
   | Add p o =>
       let '(cbs', r) := add_callback o (s_cbs s) (mk_cb (s_next s) p) in
-      (St cbs' (N.succ (s_next s)), do _ <- r; Ok 0)
-  | Remove n => (St (snd (remove_callback (s_cbs s) n)) (s_next s), Ok 0)
+      (St cbs' (N.succ (s_next s)) (s_dead s), do _ <- r; Ok 0)
+  | Remove n => (St (snd (remove_callback (s_cbs s) n)) (s_next s) (s_dead s), Ok 0)
   | Boot n o =>
       match load_plugin_module n 0 with
       | Mod p => let '(s', r) := load_plugin_class s p false o in (s', do _ <- r; Ok 0)
@@ -246,6 +249,9 @@ Definition step (s : st) (x : op) : st * res N :=
 
 Fixpoint steps (s : st) (l : list op) : st :=
   match l with [] => s | x :: t => steps (fst (step s x)) t end.
+
+Fixpoint trace_states (s : st) (l : list op) : list st :=
+  match l with [] => [s] | x :: t => s :: trace_states (fst (step s x)) t end.
 
 (* the trace the harness compares: reply and callback names after every operation *)
 Fixpoint trace (s : st) (l : list op) : list (res N * list str) :=
@@ -269,6 +275,7 @@ Definition never_rebound : bool :=
 Record bot := Bot { b_heap : list (N * list cb);      (* list objects: reference -> contents *)
                     b_refs : list (N * N);            (* Irc handle -> reference held in self.callbacks *)
                     b_next : N;                       (* callback object counter *)
+                    b_dead : list N;                  (* instances whose die() has run *)
                     b_nref : N;                       (* next fresh reference *)
                     b_nirc : N }.                     (* next Irc handle *)
 
@@ -293,23 +300,23 @@ Section BotWorld.
 Variable world : list pspec.
 Definition bstep (b : bot) (y : bop) : bot * res N :=
   match y with
-  | NewIrc => (Bot (b_heap b) (b_refs b ++ [(b_nirc b, 0)]) (b_next b) (b_nref b) (N.succ (b_nirc b)), Ok 0)
+  | NewIrc => (Bot (b_heap b) (b_refs b ++ [(b_nirc b, 0)]) (b_next b) (b_dead b) (b_nref b) (N.succ (b_nirc b)), Ok 0)
   | Via h x =>
       match alookup h (b_refs b) with
       | None => (b, Raise OtherError)
       | Some r =>
-          let '(s', res) := step world (St (deref b r) (b_next b)) x in
+          let '(s', res) := step world (St (deref b r) (b_next b) (b_dead b)) x in
           if never_rebound then
-            (Bot (aset r (s_cbs s') (b_heap b)) (b_refs b) (s_next s') (b_nref b) (b_nirc b), res)
+            (Bot (aset r (s_cbs s') (b_heap b)) (b_refs b) (s_next s') (s_dead s') (b_nref b) (b_nirc b), res)
           else
-            (Bot (aset (b_nref b) (s_cbs s') (b_heap b)) (aset h (b_nref b) (b_refs b)) (s_next s')
+            (Bot (aset (b_nref b) (s_cbs s') (b_heap b)) (aset h (b_nref b) (b_refs b)) (s_next s') (s_dead s')
                  (N.succ (b_nref b)) (b_nirc b), res)
       end
   end.
 Fixpoint bsteps (b : bot) (l : list bop) : bot :=
   match l with [] => b | y :: t => bsteps (fst (bstep b y)) t end.
 End BotWorld.
-Definition bot0 : bot := Bot [(0, [])] [] 0 1 0.
+Definition bot0 : bot := Bot [(0, [])] [] 0 [] 1 0.
 
 (* ------------------------------------------------------------------ *)
 (* command resolution: src/callbacks.py  NestedCommandsIrcProxy.findCallbacksForArgs / finalEval,
@@ -429,7 +436,7 @@ Definition gOp (v : value) : op :=
                 (orc_of (gLS (nth_v 4 a)))
   end.
 
-Definition st0 : st := St [] 0.
+Definition st0 : st := St [] 0 [].
 
 (* canonicalName on names without trailing specials: drop TAB - _ SPACE, lower-case *)
 Definition canon_ascii (s : str) : str :=
@@ -466,5 +473,13 @@ Definition run (v : value) : value :=
                   ++ repeat NewIrc nlate in
       let b := bsteps lower_ascii w bot0 bops in
       L (map (fun hr => vLS (map cname (view b (fst hr)))) (b_refs b))
+  | 3 =>
+      (* (world ops): the names of the instances whose die() was called, in call order; every
+         instance ever built is looked up among the callbacks the history registered at some point *)
+      let tr := trace_states lower_ascii w st0 ops in
+      let all := flat_map s_cbs tr in
+      let s := steps lower_ascii w st0 ops in
+      L (map (fun i => match find (fun c => N.eqb (cid c) i) all with Some c => vS (cname c) | None => L [] end)
+             (s_dead s))
   | _ => L []
   end.
